@@ -60,9 +60,12 @@ Proof.
 Qed.
 Print Assumptions c12_terminates.
 
-(* tie: the source's _send is the program these theorems are about *)
-Theorem c12_program_is_current : Gen_sendq.send_prog = SendQ.prog /\ Gen_sendq.sendlock_is_plain_lock = true.
-Proof. split; [exact tie_prog|apply tie_lock]. Qed.
+(* tie: the source's _send is the program these theorems are about; the lock is a plain threading.Lock and the queue a fresh list,
+   each assigned exactly once, unconditionally, in __init__; no other method of Connection and no other module touches the queue,
+   the lock or the channel's send (every outgoing frame goes through _send) *)
+Theorem c12_program_is_current : Gen_sendq.send_prog = SendQ.prog /\ Gen_sendq.sendlock_is_plain_lock = true
+  /\ Gen_sendq.send_queue_is_fresh_list = true /\ Gen_sendq.send_state_private_to_send = true /\ Gen_sendq.send_state_untouched_elsewhere = true.
+Proof. split; [exact tie_prog|exact tie_lock]. Qed.
 Print Assumptions c12_program_is_current.
 
 (* non-vacuity: two threads, a schedule in which thread 1's acquire fails while thread 0 holds the lock and
